@@ -11,6 +11,7 @@ import (
 	"encoding/json"
 	"fmt"
 	"os"
+	"strconv"
 	"testing"
 )
 
@@ -51,6 +52,7 @@ type vResult struct {
 	Diverge    []string `json:"diverge,omitempty"`
 	Pops       int      `json:"pops"`
 	Panic      string   `json:"panic,omitempty"`
+	Packed     bool     `json:"packed,omitempty"`
 }
 
 func vByte(s, p int) byte { return byte(s*16 + p + 1) }
@@ -85,6 +87,18 @@ func vRecord(f *vFrag) []byte {
 	return append(rec, hs...)
 }
 
+// vRecordMulti builds ONE plaintext handshake record that carries several fragments back to back (RFC 6347 4.2.3:
+// several handshake messages / fragments may share a record).
+func vRecordMulti(fs []*vFrag) []byte {
+	var body []byte
+	for _, f := range fs {
+		body = append(body, vRecord(f)[13:]...)
+	}
+	rec := []byte{22, 0xfe, 0xfd, 0, 0, 0, 0, 0, 0, 0, 0, byte(len(body) >> 8), byte(len(body))}
+
+	return append(rec, body...)
+}
+
 func vPop(fb *FragmentBuffer) (content []byte, panicked string) {
 	defer func() {
 		if r := recover(); r != nil {
@@ -96,8 +110,10 @@ func vPop(fb *FragmentBuffer) (content []byte, panicked string) {
 	return content, ""
 }
 
-func vReplay(idx int, sc *vScript) vResult { //nolint:cyclop,gocognit
-	res := vResult{Script: idx}
+// packed: runs of up to three consecutive pushes of the script travel in ONE record (one Push call); what the buffer holds
+// and surfaces afterwards must be what the separate pushes give.
+func vReplay(idx int, sc *vScript, packed bool) vResult { //nolint:cyclop,gocognit,maintidx
+	res := vResult{Script: idx, Packed: packed}
 	fb := New()
 	covered := map[int]map[int]bool{}
 	pieces := map[int]map[[2]int]bool{}
@@ -118,24 +134,39 @@ func vReplay(idx int, sc *vScript) vResult { //nolint:cyclop,gocognit
 				fb.currentMessageSequenceNumber, fb.totalFragmentCount, fb.totalBufferSize)
 		}
 	}
+	skip := 0 // pushes already delivered inside a packed record: only their bookkeeping remains
 	for i, st := range sc.Steps {
 		switch st.Op {
 		case "push":
 			cursor := int(fb.currentMessageSequenceNumber)
-			hs, retx, err := fb.Push(vRecord(st.F))
-			if err != nil {
-				div("step %d: push error %v", i, err)
+			switch {
+			case skip > 0:
+				skip--
+			case packed && i+1 < len(sc.Steps) && sc.Steps[i+1].Op == "push":
+				group := []*vFrag{st.F}
+				for j := i + 1; j < len(sc.Steps) && sc.Steps[j].Op == "push" && len(group) < 3; j++ {
+					group = append(group, sc.Steps[j].F)
+				}
+				skip = len(group) - 1
+				if _, _, err := fb.Push(vRecordMulti(group)); err != nil {
+					div("step %d: push error %v (record of %d fragments)", i, err, len(group))
+				}
+			default:
+				hs, retx, err := fb.Push(vRecord(st.F))
+				if err != nil {
+					div("step %d: push error %v", i, err)
 
-				continue
-			}
-			if st.F.Seq < cursor && !retx {
-				viol("step %d: fragment of delivered message %d (cursor %d) not recognised as retransmission", i, st.F.Seq, cursor)
-			}
-			if st.F.Seq >= cursor && retx {
-				viol("step %d: fragment of undelivered message %d (cursor %d) flagged as retransmission", i, st.F.Seq, cursor)
-			}
-			if hs != st.Hs || retx != st.Retx {
-				div("step %d: push result model hs=%v retx=%v code hs=%v retx=%v", i, st.Hs, st.Retx, hs, retx)
+					continue
+				}
+				if st.F.Seq < cursor && !retx {
+					viol("step %d: fragment of delivered message %d (cursor %d) not recognised as retransmission", i, st.F.Seq, cursor)
+				}
+				if st.F.Seq >= cursor && retx {
+					viol("step %d: fragment of undelivered message %d (cursor %d) flagged as retransmission", i, st.F.Seq, cursor)
+				}
+				if hs != st.Hs || retx != st.Retx {
+					div("step %d: push result model hs=%v retx=%v code hs=%v retx=%v", i, st.Hs, st.Retx, hs, retx)
+				}
 			}
 			if st.F.Seq >= cursor {
 				if l, ok := msgLen[st.F.Seq]; ok && l != st.F.Len {
@@ -154,7 +185,9 @@ func vReplay(idx int, sc *vScript) vResult { //nolint:cyclop,gocognit
 				}
 				pieces[st.F.Seq][[2]int{st.F.Off, st.F.Flen}] = true
 			}
-			obs(i, st.Obs)
+			if skip == 0 { // inside a packed record the model's intermediate states do not exist
+				obs(i, st.Obs)
+			}
 		case "advance":
 			fb.AdvanceTo(uint16(st.To)) //nolint:gosec
 			if st.To > nextPop {
@@ -290,19 +323,31 @@ func TestVerifFragScripts(t *testing.T) {
 	enc := json.NewEncoder(w)
 	scan := bufio.NewScanner(fi)
 	scan.Buffer(make([]byte, 1<<20), 1<<24)
-	n, bad, pops := 0, 0, 0
+	n, bad, pops, packedRuns := 0, 0, 0, 0
+	seed, _ := strconv.Atoi(os.Getenv("VERIF_SEED"))
+	packShare, packAll := seed%3, os.Getenv("VERIF_PACK_ALL") != ""
 	for scan.Scan() {
 		var sc vScript
 		if err := json.Unmarshal(scan.Bytes(), &sc); err != nil {
 			t.Fatalf("script %d: %v", n, err)
 		}
-		res := vReplay(n, &sc)
+		res := vReplay(n, &sc, false)
 		pops += res.Pops
 		if len(res.Violations) > 0 || len(res.Diverge) > 0 {
 			bad++
 			_ = enc.Encode(res)
 		}
+		// a third of the scripts (all of them in a replay of few) once more with consecutive pushes sharing a record
+		if n%3 == packShare || packAll {
+			res = vReplay(n, &sc, true)
+			pops += res.Pops
+			packedRuns++
+			if len(res.Violations) > 0 || len(res.Diverge) > 0 {
+				bad++
+				_ = enc.Encode(res)
+			}
+		}
 		n++
 	}
-	_ = enc.Encode(map[string]int{"scripts": n, "flagged": bad, "pops": pops})
+	_ = enc.Encode(map[string]int{"scripts": n, "flagged": bad, "pops": pops, "packed": packedRuns})
 }
